@@ -521,6 +521,9 @@ Proof.
   intro H. destruct (steps_structure _ _ _ _ H WF_init) as [_ Q']. unfold Q, Qr in Q'. cbn in Q'. lia.
 Qed.
 
+Theorem state_WF cfg es c : state_after cfg es = Some c -> WF c.
+Proof. rewrite state_after_steps. apply steps_WF. Qed.
+
 Theorem registered_markers_bounded cfg es c : state_after cfg es = Some c -> refcount c <= marker_usage es.
 Proof. rewrite state_after_steps. apply steps_refcount_le_markers. Qed.
 
